@@ -1,114 +1,167 @@
-(* C15, part 1: the genesis exported from a state satisfying the invariant passes Validate.
-   Uses of the invariant: ids_seq, auctions_wf, bids_wf, allowed_wf, vqs_wf, params_wf. *)
-From Coq Require Import ZArith NArith List Bool Arith Lia Permutation Sorted.
+(* The GENESIS operation and the auction list: under the invariant that the auction ids are exactly
+   0 .. st_aseq - 1 in order, export / import gives back the same auction records and counter. *)
+From Coq Require Import ZArith NArith List Bool Arith Lia.
 From FR Require Import Dec Types Bank Match Step Genesis Model Spec.
-From FR.Proofs Require Import InvDefs GenesisSort.
+From FR.Proofs Require Import FrameFacts TxFacts BlockFacts LifeTheorems.
 Import ListNotations.
 Open Scope Z_scope.
 
-(* ------------------------------------------------------------------ ids_upto *)
-Lemma ids_upto_seqN k : ids_upto k = seqN 0 (N.to_nat k).
-Proof. unfold ids_upto. exact (map_of_nat_seq 0 (N.to_nat k)). Qed.
+Definition gen_ok (s : state) : Prop := map a_id (st_auctions s) = ids_upto (st_aseq s).
 
-Lemma succ_ids_upto k : map N.succ (ids_upto k) = seqN 1 (N.to_nat k).
-Proof. rewrite ids_upto_seqN, map_succ_seqN. reflexivity. Qed.
-
-Lemma ids_upto_NoDup k : NoDup (ids_upto k).
-Proof. rewrite ids_upto_seqN. apply seqN_NoDup. Qed.
-
-Lemma ids_upto_length k : length (ids_upto k) = N.to_nat k.
-Proof. rewrite ids_upto_seqN. apply seqN_length. Qed.
-
-(* ------------------------------------------------------------------ unique keys from the invariant *)
-Definition bid_key (b : bid) : N * N := (b_auction b, b_id b).
-Definition allowed_key (x : allowed) : N * N := (al_auction x, al_bidder x).
-Definition vq_key (v : vq) : N * Z := (v_auction v, v_time v).
-
-Lemma bid_keys_NoDup s : bids_wf s -> NoDup (map bid_key (st_bids s)).
+Lemma gen_ok_length s : gen_ok s -> N.of_nat (length (st_auctions s)) = st_aseq s.
 Proof.
-  intros [_ Hids]. unfold bid_key. apply (NoDup_pair_keys b_auction b_id). intros a.
-  change (filter (fun x => N.eqb (b_auction x) a) (st_bids s)) with (bids_of s a).
-  rewrite Hids, succ_ids_upto. apply seqN_NoDup.
+  unfold gen_ok, ids_upto. intros H. apply (f_equal (@length N)) in H.
+  rewrite !map_length, seq_length in H. lia.
 Qed.
 
-Lemma auction_ids_NoDup s : ids_seq s -> NoDup (map a_id (st_auctions s)).
-Proof. intros H. rewrite H. apply ids_upto_NoDup. Qed.
-
-(* ------------------------------------------------------------------ the per-record checks *)
-Lemma auction_ok_of_wf a : auction_wf a -> auction_ok a = true.
+Lemma NoDup_map_inj {A B} (f : A -> B) l : (forall x y, f x = f y -> x = y) -> NoDup l -> NoDup (map f l).
 Proof.
-  intros H. unfold auction_ok.
-  pose proof (awf_price a H) as Hp. pose proof (awf_amt a H) as Ha.
-  pose proof (awf_denoms a H) as Hd. pose proof (awf_scheds a H) as Hs.
-  apply Z.ltb_lt in Hp. rewrite Hp.
-  assert (0 <=? a_sell_amt a = true) as Ha' by (apply Z.leb_le; lia). rewrite Ha'.
-  apply N.eqb_neq in Hd. rewrite Hd. cbn [andb negb].
-  destruct Hs as [Hs|Hs]; [rewrite Hs; reflexivity|].
-  destruct (a_scheds a); [reflexivity|exact Hs].
+  intros Hf. induction l as [|x l IH]; cbn [map]; intros ND; [constructor|].
+  inversion ND as [|? ? Hn ND']; subst. constructor; [|apply IH; exact ND'].
+  intros HI. apply in_map_iff in HI. destruct HI as (y & Hy & HI). apply Hf in Hy. subst y. contradiction.
 Qed.
 
-Lemma bid_ok_of_wf s b : bid_wf s b -> bid_ok b = true.
+Lemma gen_ok_ids_ok s : gen_ok s -> ids_ok s.
 Proof.
-  intros H. unfold bid_ok. apply andb_true_intro. split; apply Z.ltb_lt; [apply (bwf_price s b H)|apply (bwf_amt s b H)].
+  unfold gen_ok, ids_ok, ids_upto. intros H. split.
+  - rewrite H. apply NoDup_map_inj; [intros x y E; lia|apply seq_NoDup].
+  - rewrite Forall_forall. intros a Ha.
+    assert (HI : In (a_id a) (map a_id (st_auctions s))) by (apply in_map; exact Ha).
+    rewrite H in HI. apply in_map_iff in HI. destruct HI as (i & Hi & HI). apply in_seq in HI. lia.
 Qed.
 
-Lemma forallb_sort_by {A} (le : A -> A -> bool) (f : A -> bool) (Q : A -> Prop) (l : list A) :
-  (forall x, Q x -> f x = true) -> Forall Q l -> forallb f (sort_by le l) = true.
+Lemma import_auctions_same : forall l n,
+  map a_id l = map N.of_nat (seq n (length l)) ->
+  import_auctions l (N.of_nat n) = (l, N.of_nat (n + length l)).
 Proof.
-  intros HQ HF. apply forallb_forall. intros x Hx. apply sort_by_in in Hx.
-  rewrite Forall_forall in HF. apply HQ. apply HF. exact Hx.
+  induction l as [|a r IH]; cbn [import_auctions length map seq]; intros n H.
+  - rewrite Nat.add_0_r. reflexivity.
+  - injection H as Ha Hr. replace (N.of_nat n + 1)%N with (N.of_nat (S n)) by lia.
+    rewrite (IH (S n) Hr). rewrite <- Ha, set_id_eta. f_equal. f_equal. lia.
 Qed.
 
-Lemma Forall_forallb {A} (f : A -> bool) (Q : A -> Prop) (l : list A) :
-  (forall x, Q x -> f x = true) -> Forall Q l -> forallb f l = true.
+Lemma fold_put_allowed_auctions l : forall s,
+  let s' := fold_left (fun s x => put_allowed s (al_auction x) (al_bidder x) (al_max x)) l s in
+  st_auctions s' = st_auctions s /\ st_aseq s' = st_aseq s.
 Proof.
-  intros HQ HF. apply forallb_forall. intros x Hx. rewrite Forall_forall in HF. apply HQ. apply HF. exact Hx.
+  induction l as [|x l IH]; cbn [fold_left]; intros s; [split; reflexivity|].
+  destruct (IH (put_allowed s (al_auction x) (al_bidder x) (al_max x))) as [H1 H2].
+  cbv zeta. rewrite H1, H2. rewrite put_allowed_eq. split; reflexivity.
 Qed.
 
-(* ------------------------------------------------------------------ Theorem 1 *)
-Theorem export_validates_parts s :
-  ids_seq s -> auctions_wf s -> bids_wf s -> allowed_wf s -> vqs_wf s -> params_wf s ->
-  validate (export s) = true.
+Lemma import_bids_auctions l : forall s s',
+  import_bids s l = Some s' -> st_auctions s' = st_auctions s /\ st_aseq s' = st_aseq s.
 Proof.
-  intros Hids Hau Hb Hal Hvq Hpa.
-  unfold validate, export. cbn [g_allowed g_vqs g_bids g_auctions g_params].
-  assert (nodup_by (fun x y => N.eqb (al_auction x) (al_auction y) && N.eqb (al_bidder x) (al_bidder y))
-                   (sort_by allowed_le (st_allowed s)) = true) as H1.
-  { apply (nodup_by_of_NoDup allowed_key).
-    - intros x y E. apply andb_prop in E. destruct E as [E1 E2].
-      apply N.eqb_eq in E1. apply N.eqb_eq in E2. unfold allowed_key. congruence.
-    - apply sort_by_NoDup_keys. apply Hal. }
-  assert (forallb allowed_ok (sort_by allowed_le (st_allowed s)) = true) as H2.
-  { apply (forallb_sort_by _ _ (fun x => 0 < al_max x)); [|apply Hal].
-    intros x Hx. unfold allowed_ok. apply Z.ltb_lt. exact Hx. }
-  assert (nodup_by (fun x y => N.eqb (v_auction x) (v_auction y) && (v_time x =? v_time y))
-                   (sort_by vq_le (st_vqs s)) = true) as H3.
-  { apply (nodup_by_of_NoDup vq_key).
-    - intros x y E. apply andb_prop in E. destruct E as [E1 E2].
-      apply N.eqb_eq in E1. apply Z.eqb_eq in E2. unfold vq_key. congruence.
-    - apply sort_by_NoDup_keys. apply Hvq. }
-  assert (forallb vq_ok (sort_by vq_le (st_vqs s)) = true) as H4.
-  { apply (forallb_sort_by _ _ (vq_wf s)); [|apply Hvq].
-    intros v Hv. unfold vq_ok. apply Z.leb_le. apply (vwf_amt s v Hv). }
-  assert (nodup_by (fun x y => N.eqb (b_auction x) (b_auction y) && N.eqb (b_id x) (b_id y))
-                   (sort_by bid_le (st_bids s)) = true) as H5.
-  { apply (nodup_by_of_NoDup bid_key).
-    - intros x y E. apply andb_prop in E. destruct E as [E1 E2].
-      apply N.eqb_eq in E1. apply N.eqb_eq in E2. unfold bid_key. congruence.
-    - apply sort_by_NoDup_keys. apply bid_keys_NoDup. exact Hb. }
-  assert (forallb bid_ok (sort_by bid_le (st_bids s)) = true) as H6.
-  { apply (forallb_sort_by _ _ (bid_wf s)); [|apply Hb]. apply bid_ok_of_wf. }
-  assert (nodup_by (fun x y => N.eqb (a_id x) (a_id y)) (st_auctions s) = true) as H7.
-  { apply (nodup_by_of_NoDup a_id).
-    - intros x y E. apply N.eqb_eq. exact E.
-    - apply auction_ids_NoDup. exact Hids. }
-  assert (forallb auction_ok (st_auctions s) = true) as H8.
-  { apply (Forall_forallb _ auction_wf); [apply auction_ok_of_wf|exact Hau]. }
-  destruct Hpa as [H9 H10].
-  rewrite H1, H2, H3, H4, H5, H6, H7, H8, H9, H10. reflexivity.
+  induction l as [|b l IH]; cbn [import_bids]; intros s s' H.
+  - injection H as <-. split; reflexivity.
+  - destruct (find_auction s (b_auction b)); [|discriminate H]. cbv zeta in H.
+    apply IH in H. exact H.
 Qed.
 
-Theorem export_validates s : Inv s -> validate (export s) = true.
+Lemma import_vqs_auctions l : forall s s',
+  import_vqs s l = Some s' -> st_auctions s' = st_auctions s /\ st_aseq s' = st_aseq s.
 Proof.
-  intros H. apply export_validates_parts; apply H.
+  induction l as [|v l IH]; cbn [import_vqs]; intros s s' H.
+  - injection H as <-. split; reflexivity.
+  - destruct (find_auction s (v_auction v)); [|discriminate H]. cbv zeta in H.
+    apply IH in H. exact H.
 Qed.
+
+Lemma import_auctions_gen s s' :
+  gen_ok s -> import s (export s) = Some s' -> st_auctions s' = st_auctions s /\ st_aseq s' = st_aseq s.
+Proof.
+  intros G H. unfold import in H. cbn [g_auctions g_allowed g_bids g_vqs g_params export] in H.
+  assert (E : import_auctions (st_auctions s) 0 = (st_auctions s, st_aseq s)).
+  { change 0%N with (N.of_nat 0). rewrite import_auctions_same.
+    - rewrite Nat.add_0_l, (gen_ok_length s G). reflexivity.
+    - unfold gen_ok, ids_upto in G. rewrite G. f_equal. f_equal. pose proof (gen_ok_length s G). lia. }
+  rewrite E in H. cbv zeta in H.
+  match type of H with context [fold_left ?f ?l ?s0] =>
+    pose proof (fold_put_allowed_auctions l s0) as HF; cbv zeta in HF;
+    set (sa := fold_left f l s0) in *
+  end.
+  cbn [st_auctions st_aseq] in HF. destruct HF as [F1 F2].
+  destruct (import_bids sa (sort_by bid_le (st_bids s))) as [sb|] eqn:EB; [|discriminate H].
+  apply import_bids_auctions in EB. destruct EB as [B1 B2].
+  match type of H with context [import_vqs ?s0 ?l] =>
+    destruct (import_vqs s0 l) as [sv|] eqn:EV; [|discriminate H]
+  end.
+  apply import_vqs_auctions in EV. destruct EV as [V1 V2]. cbn [st_auctions st_aseq with_mlen] in V1, V2.
+  injection H as <-. cbn [st_auctions st_aseq with_params]. split; congruence.
+Qed.
+
+Lemma L_genesis_auctions s :
+  gen_ok s -> st_auctions (snd (step s OGenesis)) = st_auctions s /\ st_aseq (snd (step s OGenesis)) = st_aseq s.
+Proof.
+  intros G. cbn [step]. unfold genesis_roundtrip. cbv zeta.
+  destruct (import s (export s)) as [s'|] eqn:E; cbn [snd]; [|split; reflexivity].
+  apply import_auctions_gen; assumption.
+Qed.
+
+(* gen_ok is an invariant of every step *)
+Lemma L_gen_ok_step s o : gen_ok s -> gen_ok (snd (step s o)).
+Proof.
+  intros G. destruct o as [m|id l|id u max|t orc|t orc k|from to d amt|ls|] eqn:Eo;
+    try (rewrite <- Eo; assert (Hg : o <> OGenesis) by (rewrite Eo; discriminate);
+         destruct (step_ids s o (gen_ok_ids_ok s G) Hg) as [(a & C)|[H1 H2]];
+         [ destruct C as (_ & _ & C1 & C2 & C3 & _); unfold gen_ok in *; rewrite C1, C3, map_app, G; cbn [map];
+           rewrite C2; unfold ids_upto; replace (N.to_nat (st_aseq s + 1)) with (S (N.to_nat (st_aseq s))) by lia;
+           rewrite seq_S, map_app; cbn [map]; rewrite Nat.add_0_l, N2Nat.id; reflexivity
+         | unfold gen_ok in *; rewrite H1, H2; exact G ]).
+  destruct (L_genesis_auctions s G) as [H1 H2]. unfold gen_ok in *. rewrite H1, H2. exact G.
+Qed.
+
+(* the auction-level statements for every operation, GENESIS included *)
+Lemma L_genesis_find s id : gen_ok s -> find_auction (snd (step s OGenesis)) id = find_auction s id.
+Proof. intros G. apply find_auction_conv. apply L_genesis_auctions. exact G. Qed.
+
+Lemma L_C08_forward_all s o id a :
+  gen_ok s -> find_auction s id = Some a ->
+  exists a', find_auction (snd (step s o)) id = Some a' /\ forward (a_status a) (a_status a') = true.
+Proof.
+  intros G F. destruct o as [m|id0 l|id0 u max|t orc|t orc k|from to d amt|ls|] eqn:Eo;
+    try (rewrite <- Eo; apply L_C08_forward; [apply gen_ok_ids_ok; exact G|rewrite Eo; discriminate|exact F]).
+  exists a. split; [rewrite L_genesis_find; assumption|apply forward_refl].
+Qed.
+
+Lemma L_C13_bounded_all s o : gen_ok s -> bounded s -> bounded (snd (step s o)).
+Proof.
+  intros G B. destruct o as [m|id0 l|id0 u max|t orc|t orc k|from to d amt|ls|] eqn:Eo;
+    try (rewrite <- Eo; apply L_C13_bounded; [apply gen_ok_ids_ok; exact G|rewrite Eo; discriminate|exact B]).
+  unfold bounded in *. destruct (L_genesis_auctions s G) as [-> _]. exact B.
+Qed.
+
+Lemma L_C19_aseq_mono_all s o : gen_ok s -> (st_aseq s <= st_aseq (snd (step s o)))%N.
+Proof.
+  intros G. destruct o as [m|id0 l|id0 u max|t orc|t orc k|from to d amt|ls|] eqn:Eo;
+    try (rewrite <- Eo; apply L_C19_aseq_mono; [apply gen_ok_ids_ok; exact G|rewrite Eo; discriminate]).
+  destruct (L_genesis_auctions s G) as [_ ->]. lia.
+Qed.
+
+Lemma L_run_invariants_all ops : forall s, gen_ok s -> bounded s -> gen_ok (run s ops) /\ bounded (run s ops).
+Proof.
+  unfold run. induction ops as [|o ops IH]; cbn [fold_left]; intros s G B; [auto|].
+  apply IH; [apply L_gen_ok_step|apply L_C13_bounded_all]; assumption.
+Qed.
+
+Lemma L_C19_terms_all s o id a :
+  gen_ok s -> find_auction s id = Some a ->
+  exists a', find_auction (snd (step s o)) id = Some a' /\ terms0_eq a a'
+             /\ (a_ends a <> [] -> first_end a' = first_end a).
+Proof.
+  intros G F. destruct o as [m|id0 l|id0 u max|t orc|t orc k|from to d amt|ls|] eqn:Eo;
+    try (rewrite <- Eo; apply L_C19_terms; [apply gen_ok_ids_ok; exact G|rewrite Eo; discriminate|exact F]).
+  exists a. split; [rewrite L_genesis_find; assumption|]. split; [apply terms0_refl|reflexivity].
+Qed.
+
+Lemma L_C13_ends_grow_all s o id a :
+  gen_ok s -> find_auction s id = Some a ->
+  exists a', find_auction (snd (step s o)) id = Some a' /\ ends_rel s o a a'.
+Proof.
+  intros G F. destruct o as [m|id0 l|id0 u max|t orc|t orc k|from to d amt|ls|] eqn:Eo;
+    try (rewrite <- Eo; apply L_C13_ends_grow; [apply gen_ok_ids_ok; exact G|rewrite Eo; discriminate|exact F]).
+  exists a. split; [rewrite L_genesis_find; assumption|]. left. reflexivity.
+Qed.
+
+Lemma gen_ok_empty s : st_auctions s = [] -> st_aseq s = 0%N -> gen_ok s.
+Proof. unfold gen_ok. intros -> ->. reflexivity. Qed.
